@@ -420,4 +420,61 @@ theorem inv_run (es : List Ev) (s s' : St) (h : Inv s) (hr : run s es = some s')
     | none => simp [hs] at hr
     | some s1 => simp [hs] at hr; exact ih s1 (inv_step s e h s1 hs) hr
 
+/-! ### progress: live handlers can always finish -/
+
+def mu (s : St) : Nat := 3 * s.released.length + 2 * s.running.length + s.finished.length
+
+theorem find_head (m : Mem) (l : List Mem) : (m :: l).find? (·.uid = m.uid) = some m := by
+  simp [List.find?]
+
+/-- one more handler event is always possible while something is live, and it makes progress -/
+theorem live_step (s : St) (_hinv : Inv s) (hl : live s ≠ []) :
+    ∃ e s', step s e = some s' ∧ mu s' < mu s ∧ s'.parked = s.parked ∧ s'.queue = s.queue := by
+  cases hr : s.released with
+  | cons m rest =>
+    refine ⟨.start m.uid, { s with released := (m :: rest).erase m, running := m :: s.running }, ?_, ?_, rfl, rfl⟩
+    · simp [step, hr]
+    · simp [mu, hr]; omega
+  | nil =>
+    cases hrun : s.running with
+    | cons m rest =>
+      by_cases hn : m.note = true
+      · refine ⟨.finish m.uid, { s with running := (m :: rest).erase m, finished := m :: s.finished }, ?_, ?_, rfl, rfl⟩
+        · simp [step, hrun, hn]
+        · simp [mu, hr, hrun]; omega
+      · refine ⟨.finish m.uid, { s with running := (m :: rest).erase m, done := m :: s.done }, ?_, ?_, rfl, rfl⟩
+        · simp [step, hrun, hn]
+        · simp [mu, hr, hrun]
+    | nil =>
+      cases hf : s.finished with
+      | cons m rest =>
+        refine ⟨.signal m.uid, { s with finished := (m :: rest).erase m, nbar := s.nbar - 1, done := m :: s.done }, ?_, ?_, rfl, rfl⟩
+        · simp [step, hf]
+        · simp [mu, hr, hrun, hf]
+      | nil => exact absurd (by simp [live, hr, hrun, hf]) hl
+
+theorem run_append' (s : St) (a b : List Ev) : run s (a ++ b) = (run s a).bind (run · b) := by
+  induction a generalizing s with
+  | nil => simp [run]
+  | cons e es ih =>
+    simp only [List.cons_append, run]
+    cases h : step s e with
+    | none => simp
+    | some t => simp [ih]
+
+/-- the handlers that are live can always run to completion, whatever else is pending: there is a
+continuation (handler starts, returns, barrier signals only) after which nothing is live -/
+theorem drain (n : Nat) : ∀ (s : St), mu s = n → Inv s →
+    ∃ es s', run s es = some s' ∧ live s' = [] ∧ s'.parked = s.parked ∧ s'.queue = s.queue ∧ Inv s' := by
+  induction n using Nat.strongRecOn with
+  | _ n ih =>
+    intro s hn hinv
+    by_cases hl : live s = []
+    · exact ⟨[], s, rfl, hl, rfl, rfl, hinv⟩
+    · obtain ⟨e, s1, hstep, hlt, hp, hq⟩ := live_step s hinv hl
+      have hinv1 : Inv s1 := inv_step s e hinv s1 hstep
+      obtain ⟨es, s2, hrun, hl2, hp2, hq2, hinv2⟩ := ih (mu s1) (by omega) s1 rfl hinv1
+      refine ⟨e :: es, s2, ?_, hl2, by rw [hp2, hp], by rw [hq2, hq], hinv2⟩
+      simp [run, hstep, hrun]
+
 end Jrpc.Barrier
